@@ -19,9 +19,10 @@
     and the conversion of mole fractions + gas fraction back to phase masses in
     `FluidMixture.equilibrium` (l.660-721 as of commit 87c9b6c, `replace_zeros=True` branch with
     at least one positive mass).
-  * `kUpdate` = the K-factor update `K = (f_liq/(x_liq P)) / (f_gas/(x_gas P))` of
-    `successive_substitution.update_K` (l.3005).  The equation of state is NOT modelled: the
-    fugacities are arguments.
+  The equation of state, `successive_substitution` (K update, NaN -> 0, first-step safeguards, stop
+  flags) and `stability_analysis` are NOT modelled: the model takes what the last
+  `successive_substitution` call returned as an input (`equilMMEnd`); isofugacity of the real
+  outputs is a sampled test of the harness, not a theorem.
 
   NaN handling of the code that cannot be expressed in `Num` (a K vector of NaN's marks a
   single-phase result) is modelled with `Option`: `none` = the NaN vector.
@@ -203,14 +204,6 @@ def equilibriumPost (m M : List α) (o : MMOut α) : EqOut α :=
   let mm := backConvert m M xg xl o.beta
   ⟨mm.1, mm.2, xg, xl, K⟩
 
-/-! ### successive substitution: K-factor update (l.3005) -/
-
-/-- `K_new = (f_liq / (xi[1,:] * P)) / (f_gas / (xi[0,:] * P))` -/
-def kUpdate (xg xl fg fl : List α) (P : α) : List α :=
-  List.zipWith (fun a b => a / b)
-    (List.zipWith (fun f x => f / (x * P)) fl xl)
-    (List.zipWith (fun f x => f / (x * P)) fg xg)
-
 /-! ### line protocol -/
 
 open TamocV.Proto in
@@ -237,7 +230,6 @@ def dispatch : Dispatch := fun name args =>
     let o : MMOut Float := ⟨xg, xl, beta, if knan = 1 then none else some K⟩
     let r := equilibriumPost (α := Float) m M o
     some ([.v r.mg, .v r.ml, .v r.xg, .v r.xl] ++ kOut r.K)
-  | "Flash.kUpdate", [.v xg, .v xl, .v fg, .v fl, .s P] => some [.v (kUpdate (α := Float) xg xl fg fl P)]
   | _, _ => none
 
 end TamocV.Model.Flash
